@@ -1,6 +1,6 @@
 (* C14  DUART status and interrupt requests always tell the truth. *)
 From Coq Require Import ZArith List Bool.
-From Dmd Require Import Model.Bits Model.Fifo Model.Mem Model.Duart Proofs.PortProofs Proofs.DuartProofs.
+From Dmd Require Import Model.Bits Model.Fifo Model.Mem Model.Duart Proofs.PortProofs Proofs.DuartProofs Gen.GenDuart Proofs.RegMapTie.
 Open Scope Z_scope.
 
 (* the status invariant holds after every history of guest accesses to any register offset with any value,
@@ -89,3 +89,16 @@ Proof.
   intros d cmd tm. split; [exact (disable_rx_withdraws_a d cmd tm) | exact (disable_tx_withdraws_a d cmd tm)].
 Qed.
 Print Assumptions C14_no_stuck_request_after_disable.
+
+(* the interrupt-status bits a register access withdraws are the ones the source arm clears (`self.isr &= !X`, X
+   translated from /repo/src/duart.rs on every run): a read of a receive register withdraws that receiver's bit, a
+   read of the input-port-change register the input-port bit, a write of a transmit register that transmitter's
+   bit; every other read arm leaves the interrupt status alone *)
+Theorem C14_withdrawn_bits_are_source_bits :
+  (forall off ports clr d v d',
+     In (off, ports, clr) gd_read_arms -> duart_read_byte off d = ROk (v, d') ->
+     isr d' = if clr =? 0 then isr d else clr8 (isr d) clr)
+  /\ (forall off ports clr v d,
+        In (off, ports, clr) gd_write_arms -> clr <> 0 -> isr (duart_write_byte off v d) = clr8 (isr d) clr).
+Proof. split; [exact read_arm_isr | exact write_arm_isr]. Qed.
+Print Assumptions C14_withdrawn_bits_are_source_bits.
